@@ -1,0 +1,35 @@
+//go:build !verif
+
+package simhook
+
+import (
+	"os"
+	"sync"
+)
+
+// BeforeRead is called before a file is read as an integer.
+func BeforeRead(path string) error { return nil }
+
+// AfterRead is called with the result of reading an integer from a file.
+func AfterRead(path string, value int, err error) {}
+
+// BeforeWrite is called before an integer is written to a file.
+func BeforeWrite(path string, value int) error { return nil }
+
+// AfterWrite is called after an integer was written to a file.
+func AfterWrite(path string, value int, err error) {}
+
+// BeforeExec is called before an external command is checked and executed.
+func BeforeExec(executable string, args []string) error { return nil }
+
+// AfterExec is called with the result of an external command.
+func AfterExec(executable string, args []string, out string, err error) {}
+
+// Yield marks a point at which a goroutine woke up or finished a unit of work.
+func Yield(site string, id string) {}
+
+// BeforeLock is called right before the given mutex is locked.
+func BeforeLock(mu *sync.Mutex) {}
+
+// SignalChan announces a channel registered with os/signal.
+func SignalChan(c chan os.Signal) {}
